@@ -273,6 +273,148 @@ pub fn explore(opts: &Opts) -> Explored {
             }
         }
     }
+    // the same through Model::update: every sequence of forward / backward / update calls of length <= 4
+    // (thorough 5) that ends in an update, on models whose parameters may already hold gradients
+    // before the model's first call; the last update must step exactly the parameters that hold a
+    // gradient at that point, whatever the model did or did not do before
+    {
+        use crate::nn::{build_layers, Act, ActStore, CostK, LayerCfg};
+        let max_len = if opts.tier == Tier::Quick { 4 } else { 5 };
+        let mut seqs: Vec<Vec<u8>> = vec![vec![]];
+        let mut all: Vec<Vec<u8>> = Vec::new();
+        for _ in 0..max_len {
+            let mut next = Vec::new();
+            for sq in &seqs {
+                for a in 0..3u8 {
+                    // 0 forward, 1 backward (needs an earlier forward), 2 update
+                    if a == 1 && !sq.contains(&0) {
+                        continue;
+                    }
+                    let mut t = sq.clone();
+                    t.push(a);
+                    if a == 2 {
+                        all.push(t.clone());
+                    }
+                    next.push(t);
+                }
+            }
+            seqs = next;
+        }
+        let models: Vec<Vec<LayerCfg>> = vec![
+            vec![LayerCfg::Dense { inp: 2, out: 2, act: Act::None }],
+            vec![LayerCfg::Dense { inp: 2, out: 3, act: Act::Sigmoid }, LayerCfg::Dense { inp: 3, out: 1, act: Act::None }],
+        ];
+        let lr = 0.5f64;
+        // run the calls on a fresh model; returns, per parameter, (dims, values, tracked, gradient values)
+        let run = |cfgs: &Vec<LayerCfg>, pre: u8, calls: &[u8]| -> Result<Vec<Snap>, String> {
+            run_catch(|| {
+                let store = ActStore::new(cfgs);
+                let mut layers = build_layers(cfgs, &store, 3 + var);
+                // gradients present before the model exists: 1 = written by hand on every second parameter,
+                // 2 = left by a pass over the layers' own forward
+                if pre == 1 {
+                    let mut k = 0;
+                    for l in layers.iter_mut() {
+                        for p in l.parameters() {
+                            if k % 2 == 0 {
+                                let d = p.dimensions().to_vec();
+                                *p.gradient_mut() = Some(Array::from((d.clone(), fl(&vals(numel(&d), k + 1, var)))));
+                            }
+                            k += 1;
+                        }
+                    }
+                } else if pre == 2 {
+                    let mut x = Array::from((vec![2, 2], fl(&[1.0, -0.5, 0.25, 2.0])));
+                    for l in layers.iter() {
+                        x = l.forward(x);
+                    }
+                    x.backward(None);
+                }
+                let gd = GradientDescent::new(lr as Float);
+                let cost = CostK::Mse.make();
+                {
+                    let refs: Vec<&mut dyn corgi::layer::Layer> = layers.iter_mut().map(|b| &mut **b as &mut dyn corgi::layer::Layer).collect();
+                    let mut model = corgi::model::Model::new(refs, &gd, &cost);
+                    let out_n = match cfgs.last().unwrap() {
+                        LayerCfg::Dense { out, .. } => *out,
+                        _ => 1,
+                    };
+                    for (i, c) in calls.iter().enumerate() {
+                        match c {
+                            0 => {
+                                let _ = model.forward(Array::from((vec![2, 2], fl(&[0.5 + i as f64, -1.0, 2.0, 0.25]))));
+                            }
+                            1 => {
+                                let _ = model.backward(Array::from((vec![2, out_n], fl(&vals_small(2 * out_n, i, var)))));
+                            }
+                            _ => model.update(),
+                        }
+                    }
+                }
+                let mut out = Vec::new();
+                for l in layers.iter_mut() {
+                    for p in l.parameters() {
+                        out.push(snap(p));
+                    }
+                }
+                out
+            })
+        };
+        let l = &mut local;
+        for (mi, cfgs) in models.iter().enumerate() {
+            for pre in 0..3u8 {
+                for sq in &all {
+                    let case = || format!("Model::update after calls {} on model {} with {}", sq.iter().map(|c| ["F", "B", "U"][*c as usize]).collect::<String>(), mi, ["no earlier gradients", "gradients written by hand before the model existed", "gradients left by an earlier pass over the layers"][pre as usize]);
+                    if !l.want(&case) {
+                        continue;
+                    }
+                    l.states += 1;
+                    l.transitions += 2;
+                    l.validated += 1;
+                    let before = run(cfgs, pre, &sq[..sq.len() - 1]);
+                    let after = run(cfgs, pre, sq);
+                    match (before, after) {
+                        (Err(m), _) | (_, Err(m)) => l.violation("model-update", case(), format!("panicked: {}", m)),
+                        (Ok(b), Ok(a)) => {
+                            let mut msgs = Vec::new();
+                            let mut dg = 0xcbf29ce484222325u64;
+                            for (k, (b, a)) in b.iter().zip(&a).enumerate() {
+                                fnv(&mut dg, &digest_vals(&a.dims, &a.vals).to_le_bytes());
+                                match &b.grad {
+                                    None => {
+                                        if a.dims != b.dims || a.vals.iter().zip(&b.vals).any(|(x, y)| x.to_bits() != y.to_bits()) || a.tracked != b.tracked || a.grad.is_some() {
+                                            msgs.push(format!("parameter {} held no gradient but was changed by the update", k));
+                                        }
+                                    }
+                                    Some(g) => {
+                                        if a.dims != b.dims {
+                                            msgs.push(format!("parameter {} changed dimensions", k));
+                                        } else if a.vals.iter().zip(b.vals.iter().zip(g)).any(|(x, (o, gg))| {
+                                            let want = *o - (lr as Float) * *gg;
+                                            ((*x as f64) - (want as f64)).abs() > 4.0 * (Float::EPSILON as f64) * ((*o as f64).abs() + (lr * *gg as f64).abs())
+                                        }) {
+                                            msgs.push(format!("parameter {} held the gradient {} and is {} after the update, old was {}", k, fmt_vals(g), fmt_vals(&a.vals), fmt_vals(&b.vals)));
+                                        }
+                                        if !a.tracked {
+                                            msgs.push(format!("updated parameter {} is not tracked", k));
+                                        }
+                                        if a.grad.is_some() {
+                                            msgs.push(format!("updated parameter {} still holds a gradient", k));
+                                        }
+                                    }
+                                }
+                            }
+                            l.outcome(dg);
+                            if !msgs.is_empty() {
+                                l.violation("model-update", case(), msgs.join("; "));
+                            }
+                        }
+                    }
+                    l.sample(&case);
+                }
+            }
+        }
+    }
     // more parameters than a machine word has bits, with a single frozen one late in the list
     {
         let l = &mut local;
